@@ -2,7 +2,9 @@
 From Coq Require Import List Bool String.
 From TS Require Import Model.Str Model.Outcome Model.Unicode Model.Types Model.Parse Model.Reconcile Model.Lang.Decl
                        Model.Lang.TypeScript Model.Lang.Kotlin Model.Lang.Scala Model.Lang.Go Spec.C09Spec.
+From TS Require Import Model.Lang.Swift Model.Lang.Python.
 From TS Require Proofs.C09Common Proofs.C09Recon Proofs.C09Refs Proofs.C09_KotlinFile Proofs.C09Witness Proofs.C09Final.
+From TS Require Proofs.C09_TypeScript.
 Import ListNotations.
 From TS Require Props.C09.
 
@@ -39,6 +41,19 @@ Goal forall (uc : unicode) (cfg : kt_config) (pd : parsed),
       good_C09 Kotlin (kt_prefix cfg) pd (c09_observe Kotlin fd) = true.
 Proof. exact Props.C09.C09_no_rename_Kotlin. Qed.
 Print Assumptions Props.C09.C09_no_rename_Kotlin.
+Goal forall (uc : unicode) (cfg : ts_config) (acrs : list str) (pd : parsed),
+    dom_C09 TypeScript [] pd = true -> known_C09 TypeScript [] acrs pd = None ->
+    forall fd : file_decls, ts_file_decls uc cfg (Proofs.C09Recon.c09_reconciled pd) = Ok fd ->
+      good_C09 TypeScript [] pd (c09_observe TypeScript fd) = true.
+Proof. exact Props.C09.C09_TypeScript. Qed.
+Print Assumptions Props.C09.C09_TypeScript.
+Goal forall (uc : unicode) (cfg : ts_config) (pd : parsed),
+    dom_C09 TypeScript [] pd = true ->
+    (forall e, In e (c09_entities pd) -> c09_renamed_away (c9e_id e) = false) ->
+    forall fd : file_decls, ts_file_decls uc cfg (Proofs.C09Recon.c09_reconciled pd) = Ok fd ->
+      good_C09 TypeScript [] pd (c09_observe TypeScript fd) = true.
+Proof. exact Props.C09.C09_no_rename_TypeScript. Qed.
+Print Assumptions Props.C09.C09_no_rename_TypeScript.
 Goal forall (L : lang) (pfx : str) (pd : parsed),
     (forall e, In e (c09_entities pd) -> c09_renamed_away (c9e_id e) = false) ->
     (forall a, In a (p_aliases pd) -> c09_inline_generic_class L pfx a = None) ->
